@@ -95,12 +95,21 @@ def config_menu(tier):
         if tier == "quick" and (visc != wave):
             continue
         out.append(dict(kind="aero", sym=sym, comp=comp, ground=ground, visc=visc, wave=wave, ns=2))
+        if not comp and not ground and visc:
+            out.append(dict(kind="aero", sym=sym, comp=comp, ground=ground, visc=visc, wave=wave, ns=1, geomvars=True))
     for model, sym, relief in itertools.product(["tube", "wingbox"], [True, False], [False, True]):
         if tier == "quick" and sym != relief:
             continue
         out.append(dict(kind="as", model=model, sym=sym, relief=relief))
     for model, sym in itertools.product(["tube", "wingbox"], [True, False]):
         out.append(dict(kind="struct", model=model, sym=sym))
+    # multi-section surfaces through the documented workflow (build_sections, unify_mesh, MultiSecGeometry, AeroPoint):
+    # user-supplied or generated section meshes, 1..4 sections, leading edges of neighbouring sections coincident or not
+    # (the case shift_uni_mesh exists for), with and without the shift
+    for nsec, user, le, shift in itertools.product([1, 2, 3, 4], [True, False], [0.0, 0.3], [True, False]):
+        if (not user and le) or (tier == "quick" and not shift and (nsec in (1, 4) or not user)):
+            continue
+        out.append(dict(kind="multisec", nsec=nsec, user=user, le=le, shift=shift))
     return out
 
 
@@ -254,30 +263,115 @@ def make_model(cfg, fam, mode="rev"):
                 nx_, ny_ = cfg["size"]
             m = gen.make_mesh(["twdi", "swept", "camber"][i], nx_, ny_, side, fam, asym=not cfg["sym"], offset=[4.5 * i, 0, 0.4 * i])
             kw = dict(with_viscous=cfg["visc"], with_wave=cfg["wave"], twist_cp=np.array([1.0, 2.0, 0.5]), chord_cp=np.array([1.0, 1.1]), t_over_c_cp=np.array([0.12, 0.14]), CD0=0.01)
+            if cfg.get("geomvars"):
+                # every geometry variable active at a non-default value (each one reads the user's mesh / control points)
+                kw.update(taper=0.8, sweep=5.0, dihedral=3.0, xshear_cp=np.array([0.0, 0.1]), yshear_cp=np.array([0.0, 0.02]), zshear_cp=np.array([0.0, 0.05]), ref_axis_pos=0.4)
+                if cfg["sym"]:
+                    kw["span"] = 9.0
             if cfg["ground"]:
                 kw["groundplane"] = True
             surfs.append(builders.aero_surface(cfg.get("name", "s") + "%d" % i, m, cfg["sym"], **kw))
         fl = dict(v=200.0, alpha=3.0, rho=0.5, re=2e6, Mach_number=0.84 if cfg["wave"] else 0.5, cg=[0.5, 0.0, 0.1])
         if cfg["ground"]:
             fl["height_agl"] = 6.0
+        pristine = snapshot(surfs)
         p = builders.build_aero(surfs, fl, compressible=cfg["comp"], with_geom=True, mode=mode)
+        p._oasmc_pristine = pristine
         return p, surfs, ["ap.CL", "ap.CD", "ap.CM"], ["alpha", cfg.get("name", "s") + "0.twist_cp"]
+    if cfg["kind"] == "multisec":
+        return make_multisec(cfg, fam, mode)
     if cfg["kind"] == "as":
         m = gen.make_mesh("twdi", 2, cfg.get("ny", 3 if cfg["sym"] else 5), cfg.get("side", "left") if cfg["sym"] else "full", fam, asym=not cfg["sym"], span=10.0, chord=1.6)
-        s = builders.struct_surface("wing", m, cfg["sym"], cfg["model"], struct_weight_relief=cfg["relief"], with_viscous=True, twist_cp=np.array([2.0, 3.0, 1.0]))
+        extra = dict(taper=0.9, sweep=4.0, chord_cp=np.array([1.0, 1.05]), t_over_c_cp=np.array([0.12, 0.14])) if cfg.get("geomvars", True) else {}
+        s = builders.struct_surface("wing", m, cfg["sym"], cfg["model"], struct_weight_relief=cfg["relief"], with_viscous=True, twist_cp=np.array([2.0, 3.0, 1.0]), **extra)
+        pristine = snapshot([s])
         p = builders.build_aerostruct([s], dict(Mach_number=0.5, W0=2.0e3, v=100.0, rho=0.9, alpha=4.0, speed_of_sound=200.0, R=2.0e6, load_factor=1.3), mode=mode)
+        p._oasmc_pristine = pristine
         builders.tighten(p)
         return p, [s], ["AS_point_0.CL", "AS_point_0.fuelburn", "AS_point_0.wing_perf.failure"], ["alpha", "wing.twist_cp"]
     m = gen.make_mesh("twdi", 2, cfg.get("ny", 3 if cfg["sym"] else 5), cfg.get("side", "left") if cfg["sym"] else "full", fam, asym=not cfg["sym"], span=10.0, chord=1.6)
     s = builders.struct_surface("wing", m, cfg["sym"], cfg["model"], struct_weight_relief=True, twist_cp=np.array([2.0, 3.0, 1.0]))
     ny = m.shape[1]
     loads = np.concatenate([gen.gen((ny, 3), 3, -2e3, 4e3, fam), gen.gen((ny, 3), 4, -5e2, 5e2, fam)], axis=1)
+    pristine = snapshot([s])
     p = builders.build_struct(s, loads, mode=mode)
+    p._oasmc_pristine = pristine
     return p, [s], ["failure", "structural_mass"], ["loads", "geometry.twist_cp"]
 
 
+def make_multisec(cfg, fam, mode):
+    from openaerostruct.aerodynamics.aero_groups import AeroPoint
+    from openaerostruct.geometry.geometry_group import MultiSecGeometry, build_sections
+    from openaerostruct.geometry.geometry_unification import unify_mesh
+
+    n = cfg["nsec"]
+    surf = {
+        "name": "surface",
+        "is_multi_section": True,
+        "num_sections": n,
+        "sec_name": ["sec%d" % i for i in range(n)],
+        "symmetry": True,
+        "S_ref_type": "wetted",
+        "twist_cp": [np.array([0.5 + 0.3 * i, 1.0 - 0.2 * i]) for i in range(n)],
+        "chord_cp": [np.array([1.0, 1.0 + 0.05 * (i + 1)]) for i in range(n)],
+        "CL0": 0.0,
+        "CD0": 0.015,
+        "k_lam": 0.05,
+        "c_max_t": 0.303,
+        "t_over_c_cp": [np.array([0.12])] * 1,
+        "with_viscous": True,
+        "with_wave": False,
+        "groundplane": False,
+    }
+    surf["t_over_c_cp"] = np.array([0.12])
+    if cfg["user"]:
+        # section i spans y in [-(n-i), -(n-i-1)]; every section is meshed in its own local x origin (offset le * (n-1-i))
+        ms = []
+        for i in range(n):
+            m = np.zeros((2, 3, 3))
+            ch = 1.0 + 0.1 * i + 0.01 * fam
+            m[:, :, 0] = np.linspace(0.0, ch, 2)[:, None] + cfg["le"] * (n - 1 - i) * (1.0 + 0.37 * i)
+            m[:, :, 1] = np.linspace(-(n - i) * 1.25, -(n - i - 1) * 1.25, 3)[None, :]
+            m[:, :, 2] = 0.02 * i
+            ms.append(m)
+        surf["meshes"] = ms
+    else:
+        surf.update(meshes="gen-meshes", nx=2, ny=[3] * n, taper=[1.0 - 0.1 * i for i in range(n)][::-1], span=[1.25] * n, sweep=[5.0 * i for i in range(n)][::-1], root_chord=1.3 + 0.01 * fam)
+    pristine = snapshot([surf])
+    p = om.Problem(reports=False)
+    p._oasmc_pristine = pristine
+    ivc = om.IndepVarComp()
+    for k, v, u in (("v", 60.0, "m/s"), ("alpha", 4.0, "deg"), ("Mach_number", 0.3, None), ("re", 1.0e6, "1/m"), ("rho", 0.9, "kg/m**3")):
+        ivc.add_output(k, val=v, units=u)
+    ivc.add_output("cg", val=np.array([0.3, 0.0, 0.0]), units="m")
+    p.model.add_subsystem("prob_vars", ivc, promotes=["*"])
+    p.model.add_subsystem("surface", MultiSecGeometry(surface=surf, shift_uni_mesh=cfg["shift"]))
+    sections = build_sections(surf)
+    uni = unify_mesh(sections, shift_uni_mesh=cfg["shift"])
+    surf["mesh"] = uni
+    p.model.add_subsystem("ap", AeroPoint(surfaces=[surf]), promotes_inputs=["v", "alpha", "Mach_number", "re", "rho", "cg"])
+    src = "surface.surface_unification.surface_uni_mesh"
+    p.model.connect(src, "ap.surface.def_mesh")
+    p.model.connect(src, "ap.aero_states.surface_def_mesh")
+    p.setup(mode=mode, force_alloc_complex=True)
+    return p, [surf], ["ap.CL", "ap.CD", "ap.CM"], ["alpha", "surface.sec0.twist_cp"]
+
+
+def _arrays(obj, path=""):
+    if isinstance(obj, np.ndarray):
+        yield path, obj
+    elif isinstance(obj, (list, tuple)):
+        for i, o in enumerate(obj):
+            yield from _arrays(o, "%s[%d]" % (path, i))
+    elif isinstance(obj, dict):
+        for k, o in obj.items():
+            yield from _arrays(o, "%s.%s" % (path, k) if path else str(k))
+
+
 def snapshot(surfs):
-    return [{k: np.array(v, copy=True) for k, v in s.items() if isinstance(v, np.ndarray)} for s in surfs]
+    """a copy of every array reachable from the user's dictionaries (top-level values, lists such as the section meshes
+    and per-section control points, nested dictionaries)"""
+    return [{k: np.array(v, copy=True) for k, v in _arrays(s)} for s in surfs]
 
 
 def all_outputs(p):
@@ -292,16 +386,17 @@ def part_valid(s):
     cfg, fam = s["cfg"], s["fam"]
     viol, val = [], 0
     wh = dict(kind=cfg["kind"])
-    # user arrays before the model is built
+    # user arrays as they were before the first library call
     p, surfs, of, wrt = make_model(cfg, fam)
-    snap = snapshot(surfs)
+    snap = p._oasmc_pristine
 
     def unchanged(stage):
         nonlocal val
         for s0, s1 in zip(snap, surfs):
+            now = dict(_arrays(s1))
             for k, v in s0.items():
                 val += 1
-                if not (isinstance(s1.get(k), np.ndarray) and np.array_equal(v, s1[k])):
+                if not (isinstance(now.get(k), np.ndarray) and np.array_equal(v, now[k])):
                     viol.append(dict(sig=dict(oracle="user_arrays_untouched", key=k, stage=stage, **wh), msg="user array %r of surface %r changed during %s" % (k, s1["name"], stage), measure=1.0))
 
     unchanged("setup")
